@@ -31,6 +31,9 @@ func init() {
 
 func rulesC19(c *Ctx) {
 	ruleSentSliceNotReused(c, "C19.SENTSLICE", "objectz")
+	// a query answers from the store's objects and the query text alone: no read entry point writes a shared
+	// store object (a parsed-query cache keyed without the paging clauses makes answers depend on earlier queries)
+	c.As("C18.READPATH", "C19.READPATH", func() { ruleC18ReadPath(c) })
 	p := c.P
 	rulePagingArith(c, "C19.PAGING.ARITH", "objectz")
 	c.Floor("C19.PAGING.ARITH", 1)
